@@ -8,6 +8,20 @@ import engine_flw as flw
 import engine_flw2 as flw2
 
 PROPS = {
+    "C08": {
+        "rules": [("FLW-5", flw2.flw5), ("FLW-6", flw2.flw6), ("FLW-7", flw2.flw7), ("TAB-2", tab.tab2), ("TAB-3", tab.tab3)],
+        "explanation": "Decides the invariant-maintenance clauses of C08: a representation invariant holds after every rule iff every writer re-establishes it. "
+                       "FLW-5a: MIR typestate (Empty/NonEmpty/Maybe, branch-refined on is_empty) of every by-value syllable that is pushed, inserted or stored "
+                       "into a word; FLW-5b: every removal of a segment from a syllable inside a word is followed on all normal paths by an emptiness check that "
+                       "removes or overwrites the syllable, or keeps a copy (run-length guard), or is the first half of a split guarded by !at_syll_start; "
+                       "FLW-6: every parse::<u16> of tone digits is reachable only after replace('0',\"\") and a rejected chars().count() > 4, concat_tone cannot "
+                       "return before dedup and its len > 4 meld test, every write of Syllable.tone copies a tone / capped literal / concat_tone result; FLW-7: raw "
+                       "`*place =` writes assign None only, node bytes and the packed place word are written only by set_node and the four setters (each ending "
+                       "in the Some(0)->None normalisation, TAB-3), cardinals.json places are normalised; TAB-2/3: masks stay inside their fields.",
+        "does_not_decide": "'at least one syllable' beyond the presence of the explicit `len() <= 1` refusals; the arithmetic inside concat_tone's meld step.",
+        "assumptions": ["words entering a rule satisfy the invariant (syllables cloned out of a word are NonEmpty)",
+                        "gen_syll_from_struct may return an empty syllable (unknown variable / empty structure), hence Maybe"],
+    },
     "C14": {
         "rules": [("FLW-4", flw2.flw4)],
         "explanation": "Decides the write-effect clauses of C14 on MIR: Segment::apply_seg_mods cannot reach a syllable by type; in Syllable::apply_syll_mods every write "
